@@ -46,12 +46,13 @@ prop('C14', units=['syn'], level='proof', relevant=r'^unit::(lexer|lexspec|token
      ])
 
 prop('C20', units=['syn'], level='proof', relevant=r'^unit::(completion::|lexer::Lexer::(identifier|bangoperator|number|next_token)|grammar::statement::statement$|lexspec::)',
+     bounded=[dict(test='c20_classes', covers='the class-name half of C20 (CompletionContext::complete_classes: iterator chain over the symbol map and format!, outside the contracts)',
+                   bound='a fixed corpus written from the property statement: 3 workspaces (0/1/3 template parameters incl. defaulted ones, a multiclass, defs and a defset that must not be offered, a class of an included file); the offered (label, snippet) set is compared with the expected one and every snippet, placeholders filled, is parsed and indexed as a parent-class reference')],
      explanation=('Finite and exhaustive over the real tables: the const arrays TOPLEVEL_KEYWORDS, PRIMITIVE_TYPES, BOOLEAN_VALUES, BANG_OPERATORS are hoisted '
                   'verbatim from completion.rs into the unit; one Verus obligation per entry states that the literal is an identifier word whose lexer '
                   'table kind (kw_kind / bang_kind, which the real Lexer::identifier / Lexer::bangoperator are proved to implement) is exactly a statement '
                   'keyword / type / boolean / bang operator; one obligation per lexable bang operator states that it occurs in BANG_OPERATORS; an assertion '
-                  'spliced into the error arm of grammar::statement proves that arm unreachable for a statement keyword. Not decided: class-name completion '
-                  '(symbol map, rowan) and that the copy loops offer exactly the table entries (ref patterns are unsupported by Verus; assumed).'),
+                  'spliced into the error arm of grammar::statement proves that arm unreachable for a statement keyword. Class-name completion (symbol map, rowan) is outside the contracts: a BOUNDED stand-in (fixed corpus, not counted as proved) covers it. Not decided: that the copy loops offer exactly the table entries (ref patterns are unsupported by Verus; assumed).'),
      assumptions=SYN_ASSUME + ['complete_* copy loops are external_body: assumed to offer exactly the entries of their const table plus the literal snippet labels',
                                'const item types are rewritten from &str to &\'static str (what rustc elides) and the fn-local consts are hoisted to module level (R10)'])
 
